@@ -35,6 +35,28 @@ def call_graph_cycles(rep):
                                 f'deep input or deep results exhaust the Python stack', f'{rel}:{root}'))
 
 
+def implicit_recursion(rep):
+    """hashing and comparing parsed objects is structural, hence recursive over the whole subtree:
+    the iterative walkers (which every successful parse runs over its result) may put only id()s
+    into sets / dict keys and may not compare nodes by value"""
+    from .. import walkers
+    for what, tree, rel in routes.runtime_subjects():
+        fns = load.functions_of(tree)
+        found = []
+        bad = lambda r, m: found.append((r, m))
+        for name, chk in (('visit', walkers.check_visit), ('traverse', walkers.check_traverse)):
+            if name not in fns:
+                raise AnalysisError(f'{what}: anchor {name} vanished')
+            chk(fns[name], f'{what}:{name}', bad)
+            rep.count('walkers checked for hashing / comparing nodes by value')
+        for r, m in found:
+            if r == 'C15-dedup-identity':
+                rep.add(Finding('NO-recursion', f'{rel}:walkers', 'structural-hash',
+                                m + ' - hashing or comparing a parsed object walks its whole subtree recursively '
+                                    '(value-based __hash__/__eq__): results nested a few hundred classes deep '
+                                    'raise RecursionError at the end of every parse', f'{rel}'))
+
+
 def rule_calls_are_requests(rep, rule='NO-recursion'):
     """rule recursion uses the explicit stack: no emitted rule function calls an implementation
     function directly"""
@@ -101,6 +123,7 @@ def run(rep, tier):
     rep.count('spill helper invocations examined', stats.get('spills', 0))
     rep.floor('spill helper invocations examined', stats.get('spills', 0), 2)
     call_graph_cycles(rep)
+    implicit_recursion(rep)
     rule_calls_are_requests(rep)
     from .. import controls
     controls.route_controls(rep)
